@@ -427,6 +427,11 @@ func genOverride(t *rapid.T, ty desc.T, mg *msgGen) map[string]string {
 			}
 		}
 	}
+	// a literal key that joins two field names with a comma names no field (RM.Set splits such lists
+	// when IT is used; a key written directly into the map is just a key): it selects nothing
+	if len(ty.Fields) >= 2 && rapid.IntRange(0, 5).Draw(t, "commaKey") == 3 {
+		rm[ty.Fields[0].Name+","+ty.Fields[1].Name] = "required|comma key,to=1~1|comma key"
+	}
 	return rm
 }
 
